@@ -7,7 +7,8 @@ def generate_all():
     errs = {}
     import gen_radii
     import gen_tables
-    for name, fn in (("radii", gen_radii.generate), ("tables", gen_tables.generate)):
+    import gen_centring
+    for name, fn in (("radii", gen_radii.generate), ("tables", gen_tables.generate), ("centring", gen_centring.generate)):
         try:
             fn()
         except Exception as e:  # noqa
